@@ -44,19 +44,22 @@ NormOp(o) == IF "keep" \in DOMAIN o THEN [o EXCEPT !.keep = SetOf(@)] ELSE o
 
 Init == l = 1 /\ content = {}
 
+\* the three groups of conjuncts, so that a rejection can say which one failed
+PostOf(e) == {Ent(x) : x \in SetOf(e.p)}
+WellFormedEv(e) ==                                            \* C05 / C03 in every observed state
+  LET D == TagPre(e.s, e.mode) IN
+  /\ Cardinality(D) = Len(e.s) /\ Dict!DUniqueKeys(D) /\ Len(e.s) <= e.n
+  /\ Dict!DUniqueKeys(PostOf(e)) /\ Cardinality(PostOf(e)) = Len(e.p) /\ Len(e.p) <= e.n
+  /\ e.len = Len(e.p) /\ e.empty = (Len(e.p) = 0)            \* len() / is_empty() agree with iteration
+InstrumentsOK(e) == e.viol = <<>>                             \* nothing destroyed twice, no dead data used
+Allowed(e) ==
+  LET res == [ret |-> e.r, post |-> PostOf(e), dk |-> SetOf(e.dk), dv |-> SetOf(e.dv), lk |-> SetOf(e.lk), lv |-> SetOf(e.lv)]
+  IN Dict!DictAllows(TagPre(e.s, e.mode), e.n, NormOp(e.o), res)
+
 EventOK(e) ==
   IF e.o.name = "reset" THEN TRUE        \* a new empty container (the old one was dropped: see its own event)
-  ELSE
-    LET D == TagPre(e.s, e.mode)
-        post == {Ent(x) : x \in SetOf(e.p)}
-        res == [ret |-> e.r, post |-> post, dk |-> SetOf(e.dk), dv |-> SetOf(e.dv), lk |-> SetOf(e.lk), lv |-> SetOf(e.lv)]
-    IN /\ Untag(D) = content                                   \* the call starts where the previous one ended
-       /\ Cardinality(D) = Len(e.s)
-       /\ Dict!DUniqueKeys(D) /\ Len(e.s) <= e.n                \* C05 / C03 in every observed state
-       /\ Dict!DUniqueKeys(post) /\ Cardinality(post) = Len(e.p) /\ Len(e.p) <= e.n
-       /\ e.len = Len(e.p) /\ e.empty = (Len(e.p) = 0)          \* len() / is_empty() agree with iteration
-       /\ e.viol = <<>>                                         \* instruments: nothing destroyed twice, no dead data used
-       /\ Dict!DictAllows(D, e.n, NormOp(e.o), res)
+  ELSE /\ Untag(TagPre(e.s, e.mode)) = content                \* the call starts where the previous one ended
+       /\ WellFormedEv(e) /\ InstrumentsOK(e) /\ Allowed(e)
 
 Step ==
   /\ l <= Len(Rec)
@@ -69,6 +72,8 @@ Spec == Init /\ [][Step]_vars
 \* every event was consumed; otherwise name the first one the specification rejects
 Accepted ==
   IF TLCGet("stats").diameter - 1 = Len(Rec) THEN TRUE
-  ELSE /\ PrintT(<<"REJECTED-AT", TLCGet("stats").diameter, Rec[TLCGet("stats").diameter].o>>)
+  ELSE LET e == Rec[TLCGet("stats").diameter]
+           why == IF ~WellFormedEv(e) THEN "WF" ELSE IF ~InstrumentsOK(e) THEN "VIOL" ELSE IF ~Allowed(e) THEN "ALLOW" ELSE "CHAIN" IN
+       /\ PrintT(<<"REJECTED-AT", TLCGet("stats").diameter, why, e.o>>)
        /\ FALSE
 =============================================================================
